@@ -207,6 +207,9 @@ func IsFailureReturn(r *ssa.Return) bool {
 	if definitelyNonNilErr(v) {
 		return true
 	}
+	if errNonNilVia(v, r, 3) {
+		return true
+	}
 	// guarded by v != nil
 	for _, g := range GuardsOf(r) {
 		if b, ok := g.Cond.(*ssa.BinOp); ok {
@@ -427,4 +430,76 @@ func BranchFailsClean(iff *ssa.If, pol bool, effect func(ssa.Instruction) bool) 
 		return true
 	}
 	return walk(start)
+}
+
+// guardedNonNil: instruction `at` is dominated by `v != nil`.
+func guardedNonNil(v ssa.Value, at ssa.Instruction) bool {
+	for _, g := range GuardsOf(at) {
+		if b, ok := g.Cond.(*ssa.BinOp); ok {
+			if (b.X == v && isNilConst(b.Y)) || (b.Y == v && isNilConst(b.X)) {
+				if (b.Op == token.NEQ && g.Pol) || (b.Op == token.EQL && !g.Pol) {
+					return true
+				}
+			}
+		}
+	}
+	return false
+}
+
+// errNonNilVia: v is the error result of a call to a source function that, on every return, yields for that result
+// either a definitely non-nil error or one of its parameters whose argument at this call is non-nil
+// (e.g. `return PackRetErr(err)` under `err != nil`, or PackRetErr(errors.New(...))).
+func errNonNilVia(v ssa.Value, at ssa.Instruction, depth int) bool {
+	if depth == 0 {
+		return false
+	}
+	idx := 0
+	var call *ssa.Call
+	switch x := v.(type) {
+	case *ssa.Extract:
+		c, ok := x.Tuple.(*ssa.Call)
+		if !ok {
+			return false
+		}
+		call, idx = c, x.Index
+	case *ssa.Call:
+		call = x
+	default:
+		return false
+	}
+	f := call.Common().StaticCallee()
+	if f == nil || f.Blocks == nil {
+		return false
+	}
+	n := 0
+	for _, b := range f.Blocks {
+		ret, ok := b.Instrs[len(b.Instrs)-1].(*ssa.Return)
+		if !ok {
+			continue
+		}
+		n++
+		if idx >= len(ret.Results) {
+			return false
+		}
+		rv := ret.Results[idx]
+		if definitelyNonNilErr(rv) {
+			continue
+		}
+		if p, ok := rv.(*ssa.Parameter); ok {
+			pi := -1
+			for i, q := range f.Params {
+				if q == p {
+					pi = i
+				}
+			}
+			if pi >= 0 && pi < len(call.Common().Args) {
+				a := call.Common().Args[pi]
+				if definitelyNonNilErr(a) || guardedNonNil(a, call) || errNonNilVia(a, call, depth-1) {
+					continue
+				}
+			}
+		}
+		return false
+	}
+	return n > 0
 }
